@@ -256,4 +256,62 @@ theorem inv_run {α : Type} (cap : Option Nat) (reqs : Nat → List α) (sched :
   | nil => exact h
   | cons i t ih => exact ih _ (inv_step cap reqs s i h)
 
+/-- steps writer `i` still needs. -/
+def remaining (reqs : Nat → List α) (s : State α) (i : Nat) : Nat :=
+  match s.phase i with
+  | .idle => (reqs i).length + 2
+  | .holding _ pos => ((reqs i).length - pos) + 1
+  | .done => 0
+
+theorem step_phase_other (hold : Bool) (cap : Option Nat) (reqs : Nat → List α) (s : State α) (i j : Nat)
+    (h : i ≠ j) : (step hold cap reqs s j).phase i = s.phase i := by
+  unfold step
+  split
+  · split
+    · simp [h]
+    · split
+      · simp [h]
+      · rfl
+  · split
+    · simp [h]
+    · simp [h]
+  · rfl
+
+theorem step_remaining_self (hold : Bool) (reqs : Nat → List α) (s : State α) (i : Nat) :
+    remaining reqs (step hold none reqs s i) i = remaining reqs s i - 1 := by
+  cases hp : s.phase i with
+  | idle =>
+    cases hf : s.free with
+    | nil => simp [remaining, step, hp, hf, mayAlloc]
+    | cons f fs => simp [remaining, step, hp, hf]
+  | holding id pos =>
+    by_cases hlt : pos < (reqs i).length
+    · simp [remaining, step, hp, hlt]; omega
+    · simp [remaining, step, hp, hlt]; omega
+  | done => simp [remaining, step, hp]
+
+theorem remaining_run (hold : Bool) (reqs : Nat → List α) (sched : List Nat) (s : State α) (i : Nat) :
+    remaining reqs (run hold none reqs s sched) i = remaining reqs s i - sched.count i := by
+  induction sched generalizing s with
+  | nil => simp [run]
+  | cons j t ih =>
+    have : run hold none reqs s (j :: t) = run hold none reqs (step hold none reqs s j) t := rfl
+    rw [this, ih]
+    by_cases e : j = i
+    · subst e
+      rw [step_remaining_self]
+      simp
+      omega
+    · have e' : i ≠ j := fun h => e h.symm
+      have : remaining reqs (step hold none reqs s j) i = remaining reqs s i := by
+        unfold remaining
+        rw [step_phase_other hold none reqs s i j e']
+      rw [this]
+      simp [e]
+
+theorem done_of_remaining_zero (reqs : Nat → List α) (s : State α) (i : Nat)
+    (h : remaining reqs s i = 0) : s.phase i = .done := by
+  unfold remaining at h
+  split at h <;> first | omega | assumption
+
 end Req.SharedScratch
